@@ -694,6 +694,50 @@ def clause7(P, res):
         res.violated(rid, "oneshot-decisions", f"expected >= 2 EMPTY-then-sender_count decisions in the oneshot core, found {n}")
 
 
+HANDLE_COUNTER = re.compile(r"(^|\.)(sender_count|receiver_count|senders|receivers|handle_count)$")
+
+
+def clause8(P, res):
+    rid = "C04-8"
+    res.rule(rid, "handle counters move by read-modify-write only, and the last-handle decision is the RMW's own result: outside channel constructors nothing `store`s to "
+                  "sender_count / receiver_count, and no close path decides `last` from a separate `load` that it follows with its own decrement (check-then-act: two "
+                  "handles dropped together both see `> 1`, both just decrement, and nobody disconnects the other side)")
+    n = 0
+    for b in P.bodies.values():
+        if not b.id.startswith("fibre::") or "::tests::" in b.id or not common.in_scope(b.id):
+            continue
+        ops = [e for e in b.calls() if e.is_atomic and e.args and HANDLE_COUNTER.search(b.path_of_operand(e.args[0]))]
+        if not ops:
+            continue
+        ctor = re.search(r"::(new|channel|channel_async|bounded|bounded_async|unbounded|unbounded_async|oneshot|with_capacity|from_parts)$", b.id) is not None
+        for e in ops:
+            n += 1
+            fld = b.path_of_operand(e.args[0]).rsplit(".", 1)[-1]
+            if e.method == "store" and not ctor:
+                res.violated(rid, f"{b.id}:{fld}.store", f"`{fld}` is overwritten by a plain store at {e.loc}: a concurrent clone/drop of another handle between the deciding read and "
+                             "this store is lost", where=e.loc)
+        decs = [e for e in ops if e.method == "fetch_sub"]
+        loads = [e for e in ops if e.method == "load"]
+        for dcr in decs:
+            fld = b.path_of_operand(dcr.args[0]).rsplit(".", 1)[-1]
+            # a load of the same counter whose outcome is branched on and that dominates the decrement: the decision was taken before the decrement
+            for l in loads:
+                if b.path_of_operand(l.args[0]).rsplit(".", 1)[-1] != fld or not b.dominated_by_any(dcr.pos, {l.pos}):
+                    continue
+                branched = False
+                for blk in range(len(b.blocks)):
+                    t = None if b.is_cleanup(blk) else b.term(blk)
+                    if t and t["k"] == "switch" and t.get("on", {}).get("kind") != "discr" and l in mir.operand_sources(b, t["o"])[0]:
+                        branched = True
+                if branched:
+                    res.violated(rid, f"{b.id}:{fld}:check-then-act", f"the last-handle decision is taken from the load at {l.loc} and the decrement follows at {dcr.loc}: two closers can "
+                                 "both read `more than one` and neither disconnects", where=dcr.loc)
+    if n < 34:
+        res.violated(rid, "counter-sites", f"expected >= 34 atomic operations on handle counters, found {n}")
+    else:
+        res.holds(rid, "counter-sites", f"{n} atomic operations on handle counters examined", where="channels/src", obligations=n)
+
+
 def run(P, ctx):
     res = Result("C04")
     res.extra["explanation"] = ("Closed-gate, last-handle, conversion, drop-once and drain-before-Disconnected clauses "
@@ -707,4 +751,5 @@ def run(P, ctx):
     clause5(P, res)
     clause6(P, res)
     clause7(P, res)
+    clause8(P, res)
     return res
